@@ -35,12 +35,18 @@ PoolC16 == <<
   [JsR({E("a")}, "sc1, x", {}) EXCEPT !.unhide = TRUE], HideR({H("t.s.a.com")}, ".deep"), UnhideR({E("a")}, ".deep"),
   \* IDN locations, also in non-first position of a location list
   HideR({H("a.com"), H("пример.рф"), E("пример")}, ".idn"), UnhideR({H("b.com"), H("s.пример.рф")}, ".idn"),
-  HideR({H("bücher.a.com"), NH("a.com")}, ".idn2")
+  HideR({H("bücher.a.com"), NH("a.com")}, ".idn2"),
+  \* hosts whose name contains the text of their public suffix before the suffix itself
+  HideR({E("comcast")}, ".cc"), HideR({E("internet")}, ".inet"), UnhideR({E("s.comcast")}, ".cc"), HideR({H("net")}, ".tldnet"),
+  ActR({E("comcast")}, ".cca", "remove", "")
 >>
 HostsC16 == <<"a.com", "s.a.com", "t.s.a.com", "b.com", "a.co.uk", "s.a.co.uk", "xa.com", "a.b.com", "com", "a.net",
-              "пример.рф", "s.пример.рф", "bücher.a.com">>
-NetC16 == <<"@@||s.a.com^$generichide", "@@||a.co.uk^$generichide">>
-GhideC16 == {"s.a.com", "t.s.a.com", "a.co.uk", "s.a.co.uk"}
+              "пример.рф", "s.пример.рф", "bücher.a.com", "comcast.com", "s.comcast.com", "internet.net", "s.a.net", "t.s.a.net",
+              "s.b.com", "co.uk.a.co.uk">>
+\* generichide exceptions; the page is its own source, so domain= names (or negates) the page host
+NetC16 == <<"@@||s.a.com^$generichide", "@@||a.co.uk^$generichide", "@@||a.net^$generichide,domain=s.a.net",
+            "@@||b.com^$generichide,domain=~s.b.com">>
+GhideC16 == {"s.a.com", "t.s.a.com", "a.co.uk", "s.a.co.uk", "co.uk.a.co.uk", "s.a.net", "t.s.a.net", "b.com", "a.b.com"}
 StoreStd == {
   [name |-> "sc1.js", aliases |-> {"sc1"}, kind |-> "fn", perm |-> {}, deps |-> {}],
   [name |-> "sc2.js", aliases |-> {}, kind |-> "template", perm |-> {}, deps |-> {}] }
@@ -77,7 +83,7 @@ StoreC18 == {
   [name |-> "css.js", aliases |-> {}, kind |-> "other", perm |-> {}, deps |-> {}] }
 ArgTexts == <<"free", "fr, a, b", "free.js, \"q,r\", 's'", "free, a\\,b", "free,  sp  ,x", "free, `b q`", "free, \"un", "free, \"a\" x",
               "p1, a", "p12, a", "tpl, a, b", "usesp1", "deep", "broken", "css", "nosuch, a", "free, $1 $$", "free, a\"b", "free, a\\b",
-              "", "free, {\"a\":1}">>
+              "", "free, {\"a\":1}", "free, a1, a2, a3, a4, a5, a6, a7, a8, a9, a10, a11, a12">>
 PoolC18 == [i \in DOMAIN ArgTexts |-> JsR({H("a.com")}, ArgTexts[i], {})]
     \o [i \in DOMAIN ArgTexts |-> JsR({H("a.com")}, ArgTexts[i], P1)]
     \o << JsR({H("a.com")}, "p1, b", {}), JsR({H("a.com")}, "p1, c", P2), JsR({H("a.com")}, "usesp1, z", {}),
